@@ -461,6 +461,25 @@ func diffLogs(impl, ref []string, failed bool) string {
 	switch {
 	case sub(b, a):
 		if failed {
+			// which calls are extra: only source pulls/predicates, or user functions as well
+			rest := append([]string(nil), a...)
+			for _, s := range b {
+				for j, r := range rest {
+					if r == s {
+						rest = append(rest[:j], rest[j+1:]...)
+						break
+					}
+				}
+			}
+			onlySource := true
+			for _, r := range rest {
+				if !strings.HasPrefix(r, "src.") {
+					onlySource = false
+				}
+			}
+			if onlySource {
+				return "source-calls-after-failure"
+			}
 			return "calls-after-failure"
 		}
 		return "extra-calls"
